@@ -44,6 +44,17 @@ def gen_data(rng, quick):
     return dict(kind=kind, axis=axis, X=X, y=y, family=fam, extra=extra, init=init)
 
 
+class _quiet:
+    def __enter__(self):
+        import warnings as _w
+        self.c = _w.catch_warnings()
+        self.c.__enter__()
+        _w.simplefilter("ignore")
+
+    def __exit__(self, *a):
+        return self.c.__exit__(*a)
+
+
 def rank_of(case):
     return int(np.linalg.matrix_rank(np.array(case["X"], float)))
 
@@ -254,6 +265,56 @@ def run(ctx):
                                  dict(case=data, nr=nr, prefix=cold["sel"][:kpre])))
             except Exception as e:  # noqa
                 viol.append(("FPS with prefix initialisation raised %s" % S.err_class(e), dict(case=data)))
+            # ... the prefix handed over as the API returned it (views of the result buffer), on the same
+            # object refitted cold with the same / another n_to_select, and as an array on a fresh object
+            for how in SS.PREFIX_HOWS:
+                k2 = ctx.rng.randint(1, nr)
+                n2 = nr if ctx.rng.random() < 0.6 else ctx.rng.randint(1, ncand)
+                stats["init_prefix_as_returned"] = stats.get("init_prefix_as_returned", 0) + 1
+                try:
+                    msg = SS.prefix_refit(data, nr, k2, how, n2, final_tables, tables_equal)
+                except Exception as e:  # noqa
+                    msg = "raised %s: %s" % (S.err_class(e), str(e)[:120])
+                if msg:
+                    viol.append(("FPS initialised with its own prefix: " + msg,
+                                 dict(case=dict(data, prefix_refit=dict(nr=nr, kpre=k2, how=how, n2=n2)))))
+    # ---- follow-up: CUR chains on data with a degenerate leading singular value (family D) ------
+    ndeg = 60 if ctx.quick else 600
+    dstats = dict(cases=0, schedules=0, ties=0, by_re={}, errors=0)
+    for di in range(ndeg):
+        data = SS.gen_degenerate(ctx.rng, ctx.quick)
+        ncand = len(data["X"]) if data["axis"] == 0 else len(data["X"][0])
+        nr = ctx.rng.randint(2, min(ncand, rank_of(data) - 1, 6))
+        try:
+            with _quiet():
+                cold = final_tables("cur", data["axis"], data["X"], None, None, data["extra"], [nr])
+        except Exception as e:  # noqa
+            dstats["errors"] += 1
+            viol.append(("cold fit on degenerate-spectrum data raised %s: %s" % (S.err_class(e), str(e)[:120]),
+                         dict(case=data, nr=nr)))
+            continue
+        dstats["cases"] += 1
+        rk = "re%d" % data["extra"]["recompute_every"]
+        dstats["by_re"][rk] = dstats["by_re"].get(rk, 0) + 1
+        for ks in schedules(ctx.rng, nr, False):
+            dstats["schedules"] += 1
+            case = with_stages(data, ks)
+            try:
+                with _quiet():
+                    chain = final_tables("cur", data["axis"], data["X"], None, None, data["extra"], ks)
+            except Exception as e:  # noqa
+                viol.append(("chain %s on degenerate-spectrum data raised %s" % (ks, S.err_class(e)), dict(case=case)))
+                continue
+            msg = tables_equal("cur", chain, cold)
+            if msg == "TIE":
+                dstats["ties"] += 1
+            elif msg:
+                viol.append(("history dependence on data with a degenerate leading singular value (multiplicity %d, k=%d), "
+                             "schedule %s: %s" % (data["multiplicity"], data["extra"]["k"], ks, msg),
+                             dict(case=case, cold_sel=cold["sel"], thr=None)))
+            if len(ks) >= 2:
+                nontrivial += 1
+    stats["degenerate_spectrum"] = dstats
     # ---- extension (round 3): sessions with failed calls (family S) -----------------------------
     sess_texts, sess_metas = [], []
     keyed_reported = set()
@@ -392,7 +453,8 @@ def run(ctx):
             smism += [g[k] for k in lists[0]]
         else:
             mism += [g[k] for k in lists[0]]
-    for msg, rep in viol:
+    stats["implementation_failures"] = len(viol)
+    for msg, rep in viol[:25]:          # enough replays; the total is in the coverage
         C.report_violation(ctx, "C08 fails on the implementation: " + msg, rep, found_input=True)
     for i in mism:
         C.report_violation(ctx, "correspondence Select model vs implementation broken on a warm-started chain",
@@ -446,6 +508,11 @@ def replay(ctx, obj):
         if not msgs:
             print("replay: property holds on this session now")
         return 1 if msgs else 0
+    if "prefix_refit" in case:
+        pr = case["prefix_refit"]
+        msg = SS.prefix_refit(case, pr["nr"], pr["kpre"], pr["how"], pr["n2"], final_tables, tables_equal)
+        print("replay:", msg or "property holds on this input now")
+        return 1 if msg else 0
     if "switch_stages" in case:
         data = {k: case[k] for k in ("kind", "axis", "X", "y", "init", "extra")}
         msg, info = SS.switch_compare(data, [tuple(s) for s in case["switch_stages"]])
